@@ -24,6 +24,7 @@ class JobBindAdapter:
 
         self.cls = MyDriver
         self.inst, self.xinst = {}, {}
+        self.reconf = set()
 
     def cleanup(self):
         pass
@@ -35,6 +36,13 @@ class JobBindAdapter:
             from molli.pipeline.xtb import XTBDriver
             self.inst[d] = self.cls(executable=exe, nprocs=np_, envars=env, check_exe=False, find=False)
             self.xinst[d] = XTBDriver(executable=exe + "x", nprocs=np_, envars=env, check_exe=False, find=False)
+            return {"out": "ok"}
+        if act["act"] == "reconfigure":
+            for inst, suffix in ((self.inst[d], ""), (self.xinst[d], "x")):
+                inst.executable = "exeZ" + suffix
+                inst.nprocs = 7
+                inst.envars = {"Z": "9"}
+            self.reconf.add(d)
             return {"out": "ok"}
         if act["act"] == "use":
             import molli as ml
@@ -52,7 +60,7 @@ class JobBindAdapter:
         raise AssertionError(act)
 
     def observe(self):
-        return {"made": sorted(self.inst)}
+        return {"made": sorted(self.inst), "conf": {d: (1 if d in self.reconf else 0) for d in ("d1", "d2", "d3")}}
 
 
 F1 = b"F1 content\n"
@@ -80,7 +88,7 @@ class JobRunAdapter:
             if "f2.bin" in c["writes"]:
                 w += "printf \"\\000\\377\\001binary\" > f2.bin; "
             script = (f'echo "{j}|$(cat note.txt)|$(wc -c < blob.bin | tr -d " ")|$MBV_A|$MBV_B|$(pwd)" >> {log}; '
-                      f'echo out-{j}; echo err-{j} >&2; {w}exit {c["rc"]}')
+                      f'echo out-{j}; echo err-{j} >&2; {w}' + ("kill -9 $$" if c["rc"] == 137 else f'exit {c["rc"]}'))
             commands.append(("sh -c '" + script + "'", f"c{j}" if c["named"] else None))
         inp = JobInput(jid="job17", commands=commands, files={"note.txt": "hello text", "blob.bin": b"\x00\x01\x02\xff" * 3},
                        return_files=("f1.txt", "f2.bin"), envars={"MBV_A": "job"})
